@@ -79,10 +79,15 @@ Spelling(n) ==
       [] n.casing = "snake"   -> Snake(n.words)
       [] n.casing = "acronym" -> AcronymCamel(n.words)
       [] n.casing = "screaming" -> ScreamingSnake(n.words)
+      [] n.casing = "leadacr" -> Upper[n.words[1]] \o Concat(Tail(n.words), Cap, "")   \* APIKey
 
 \* CamelCase(entity name): the base of every component name. CamelCase normalises the source spelling
 \* (fooID, FooID, foo_id and FOO_ID all give FooId), so it is a function of the words alone.
-CamelOf(n) == UpperCamel(n.words)
+\* A leading run of capitals (APIKey) is the exception: the camel-caser reads it as one word (Apikey) while the
+\* snake-casers split it (api_key, API_KEY); the expansion uses each where the statement's names need it.
+CamelOf(n) == IF n.casing = "leadacr" THEN Cap[n.words[1]] \o Concat(Tail(n.words), Ident, "") ELSE UpperCamel(n.words)
+\* the query service and its methods are named from the camel case of the *snake* name (ApiKey)
+QueryCamelOf(n) == UpperCamel(n.words)
 SnakeOf(n) == Snake(n.words)
 ScreamOf(n) == ScreamingSnake(n.words)
 
@@ -222,6 +227,7 @@ SummaryTopicName(ent, s) == SnakeOf(ent.name) \o "_" \o (IF Len(s.words) = 0 THE
 
 EntityExpand(ent) ==
     LET C  == CamelOf(ent.name)
+        Q  == QueryCamelOf(ent.name)
         S  == SnakeOf(ent.name)
         SS == ScreamOf(ent.name)
         Full(n) == Pkg \o "." \o n
@@ -261,14 +267,14 @@ EntityExpand(ent) ==
                       nested |-> SeqMap(ent.events, LAMBDA ev, i :
                           [name |-> UpperCamel(ev.words),
                            fields |-> SeqMap(ev.fields, LAMBDA f, j : PropOf(f, j))]) ],
-      query |-> [ name |-> C \o "QueryService", entity |-> S,
+      query |-> [ name |-> Q \o "QueryService", entity |-> S,
                   methods |-> <<
-                    [name |-> C \o "Get",    role |-> "get",    verb |-> "GET", path |-> base \o JoinPath(getParams),  params |-> getParams,
-                     request |-> C \o "GetRequest", response |-> C \o "GetResponse"],
-                    [name |-> C \o "List",   role |-> "list",   verb |-> "GET", path |-> base \o JoinPath(listParams), params |-> listParams,
-                     request |-> C \o "ListRequest", response |-> C \o "ListResponse"],
-                    [name |-> C \o "Events", role |-> "events", verb |-> "GET", path |-> base \o JoinPath(getParams) \o "/events", params |-> getParams,
-                     request |-> C \o "EventsRequest", response |-> C \o "EventsResponse"] >>,
+                    [name |-> Q \o "Get",    role |-> "get",    verb |-> "GET", path |-> base \o JoinPath(getParams),  params |-> getParams,
+                     request |-> Q \o "GetRequest", response |-> Q \o "GetResponse"],
+                    [name |-> Q \o "List",   role |-> "list",   verb |-> "GET", path |-> base \o JoinPath(listParams), params |-> listParams,
+                     request |-> Q \o "ListRequest", response |-> Q \o "ListResponse"],
+                    [name |-> Q \o "Events", role |-> "events", verb |-> "GET", path |-> base \o JoinPath(getParams) \o "/events", params |-> getParams,
+                     request |-> Q \o "EventsRequest", response |-> Q \o "EventsResponse"] >>,
                   primaryParams |-> pkParams,
                   eventsInGet |-> (ent.query.present /\ ent.query.eventsInGet),
                   defaultFilters |-> FilterNames(ent) ],
@@ -287,7 +293,7 @@ EntityExpand(ent) ==
       client |-> [ name |-> S,
                    primaryKey |-> [i \in 1..Len(pkIdx) |-> LowerCamel(ent.keys[pkIdx[i]].words)],
                    events |-> SeqMap(ent.events, LAMBDA ev, i : LowerCamel(ev.words)),
-                   query |-> <<C \o "Get", C \o "List", C \o "Events">>,
+                   query |-> <<Q \o "Get", Q \o "List", Q \o "Events">>,
                    commands |-> SeqMap(ent.commands, LAMBDA c, i : CmdServiceName(ent, c)) ]
     ]
 
@@ -316,12 +322,13 @@ Range(s) == {s[i] : i \in 1..Len(s)}
 
 \* all parts are named from the entity name
 NamedFromEntity(ent, x) ==
-    LET C == CamelOf(ent.name) IN
+    LET C == CamelOf(ent.name)
+        Q == QueryCamelOf(ent.name) IN
     /\ x.schemas = [keys |-> C \o "Keys", data |-> C \o "Data", status |-> C \o "Status",
                     state |-> C \o "State", eventType |-> C \o "EventType", event |-> C \o "Event"]
-    /\ x.query.name = C \o "QueryService"
+    /\ x.query.name = Q \o "QueryService"
     /\ Len(x.query.methods) = 3
-    /\ x.query.methods[1].name = C \o "Get" /\ x.query.methods[2].name = C \o "List" /\ x.query.methods[3].name = C \o "Events"
+    /\ x.query.methods[1].name = Q \o "Get" /\ x.query.methods[2].name = Q \o "List" /\ x.query.methods[3].name = Q \o "Events"
     /\ x.publish.name = C \o "PublishTopic"
     /\ Len(x.commands) = Len(ent.commands)
     /\ \A i \in 1..Len(ent.commands) : x.commands[i].name = CmdServiceName(ent, ent.commands[i])
